@@ -195,6 +195,80 @@ func (c *Ctx) Finish() {
 }
 
 // ---------------------------------------------------------------------------------------------------
+// Engine R helpers
+
+// LoadReplay returns the recorded violation when the binary runs in -replay mode, else nil.
+func (c *Ctx) LoadReplay() *Violation {
+	if c.Replay == "" {
+		return nil
+	}
+	b, err := os.ReadFile(c.Replay)
+	if err != nil {
+		fmt.Fprintln(os.Stderr, err)
+		os.Exit(2)
+	}
+	var v Violation
+	if err := json.Unmarshal(b, &v); err != nil {
+		fmt.Fprintln(os.Stderr, err)
+		os.Exit(2)
+	}
+	return &v
+}
+
+// ReplayExit ends a -replay run: exit 1 if the case still fails, 0 if it passes.
+func (c *Ctx) ReplayExit(name string, err error) {
+	if err != nil {
+		fmt.Printf("REPLAY-FAIL %s: %v\n", name, err)
+		os.Exit(1)
+	}
+	fmt.Printf("REPLAY-PASS %s\n", name)
+	os.Exit(0)
+}
+
+// Journal records the case about to run, so that the driver can attribute a process crash (a panic that
+// escapes into a framework goroutine) to it. Cheap: one small file write per case.
+func (c *Ctx) Journal(name string, cs any) {
+	if c.Out == "" || c.Replay != "" {
+		return
+	}
+	b, _ := json.Marshal(Violation{Property: c.Property, Scenario: name, Signature: "process-crash", Case: cs, Msg: "the process died while running this case (a panic escaped into a goroutine)"})
+	os.WriteFile(c.Out+".journal", b, 0o644)
+}
+
+// Guard runs f and turns a panic that unwinds to the caller into an error (panics in other goroutines
+// still kill the process; see Journal). A case that does not return within timeout is reported as a hang
+// violation and ends this worker at once (the stuck goroutines cannot be recovered).
+func (c *Ctx) Guard(name string, cs any, timeout time.Duration, f func() error) (err error) {
+	done := make(chan error, 1)
+	go func() {
+		defer func() {
+			if r := recover(); r != nil {
+				done <- &PanicError{Val: fmt.Sprint(r)}
+			}
+		}()
+		done <- f()
+	}()
+	select {
+	case err = <-done:
+		return err
+	case <-time.After(timeout):
+		if c.Replay != "" {
+			fmt.Printf("REPLAY-FAIL %s: hang (no return within %v)\n", name, timeout)
+			os.Exit(1)
+		}
+		c.Violate(Violation{Scenario: name, Signature: "hang", Case: cs, Msg: fmt.Sprintf("the case did not return within %v (hang)", timeout)})
+		c.Res.Capped, c.Res.CapReason = true, "worker stopped after a hang"
+		c.Finish()
+		return nil
+	}
+}
+
+// PanicError marks a panic that escaped to the caller of the public API.
+type PanicError struct{ Val string }
+
+func (p *PanicError) Error() string { return "panic: " + p.Val }
+
+// ---------------------------------------------------------------------------------------------------
 // Engine S
 
 // Scenario is one closed driver for the controlled scheduler.
